@@ -1169,6 +1169,11 @@ impl FileFragment {
         for data_file in &self.metadata.files {
             let last = -1;
             for field_id in &data_file.fields {
+                // Tombstoned fields (columns that were rewritten into another data
+                // file or dropped) are not part of the fragment's schema any more.
+                if *field_id < 0 {
+                    continue;
+                }
                 if *field_id <= last {
                     return Err(Error::corrupt_file(
                         self.dataset
